@@ -426,10 +426,12 @@ Proof. exact empty_topic_witness. Qed.
     ops (SUBSCRIBE QoS <= 2), fewer than 2^62 entries per filter log in the LAST state; for
     completeness also max_outgoing_packet_count >= 1 and a quiescent final state.  NO hypothesis
     on ops or oracles.
-    Not covered here: that the filter log [i] of a key is the log of filter [f] (the request
-    shape [dl_findex f = i] is not an invariant yet); that an accepted message reaches the log of
-    every matching filter (cache completeness of [dl_matches]; checked by the monitor). *)
-From Rumqtt Require Import Router.TraceRun Router.TraceRunThm Router.TraceRunContent Router.TraceRunExamples.
+    The key names the right log ([c01_run_key_shape], no hypothesis at all): [f] is a plain filter
+    (no "$share/" prefix) and [i] = [filter_indexes f]; by [c01_log_invariant] that log's filter
+    is [f] and every entry in it is a publish whose topic matches [f].
+    Not covered here: that an accepted message reaches the log of every matching filter (cache
+    completeness of [dl_matches]; checked by the monitor on implementation traces). *)
+From Rumqtt Require Import Router.TraceRun Router.TraceRunThm Router.TraceRunContent Router.TraceRunShape Router.TraceRunFinal Router.TraceRunExamples.
 From Rumqtt Require Import Router.Model Router.RunDefs.
 
 Theorem c01_run_ghost_erases : forall (ops : list (list oracle * rop)) (st : rstate),
@@ -510,6 +512,31 @@ Theorem c01_run_complete : forall (cfg : config) (st0 : rstate) (ops : list (lis
      forall (l1 : list kev) (e : N) (l2 : list kev), ktrace (o_link o, f, i) tr = l1 ++ KSub e :: l2 ->
        forall x : N, e <= x < end_of (d_log d) -> covered x l2).
 Proof. exact c01_run_complete_thm. Qed.
+
+(** the same for a plain (not shared) subscription [f], everything named: [i] is the log of [f],
+    the one request of the subscription is not shared and parked at the end of that log *)
+Theorem c01_run_complete_plain : forall (cfg : config) (st0 : rstate) (ops : list (list oracle * rop)) (st : rstate) (tr : list dev),
+  cfg_ok cfg -> cf_max_outgoing cfg < B62 -> init cfg = Ok st0 -> ops_wf ops ->
+  run_d st0 ops = Ok (st, tr) -> Bounded st ->
+  1 <= cf_max_outgoing cfg -> quiescent st (owed_run st0 [] ops) ->
+  forall (id : N) (c : connection) (o : outgoing),
+    slab_get (r_conns st) id = Some c -> slab_get (r_obufs st) id = Some o ->
+  forall f : str, set_mem str_eqb f (c_subs c) = true -> extract_group f = None ->
+  exists (i : N) (d : data) (rq : drequest),
+    al_get str_eqb f (dl_findex (r_datalog st)) = Some i /\
+    nget (r_datalog st) i = Some d /\ d_filter d = f /\
+    In (id, rq) (d_waiters d) /\ dr_filter rq = f /\ dr_idx rq = i /\ dr_group rq = None /\
+    snd (dr_cursor rq) = end_of (d_log d) /\
+    (exists (a : kev) (l : list kev), ktrace (o_link o, f, i) tr = a :: l /\ (a = KRes \/ exists e : N, a = KSub e)) /\
+    forall (l1 : list kev) (e : N) (l2 : list kev), ktrace (o_link o, f, i) tr = l1 ++ KSub e :: l2 ->
+      forall x : N, e <= x < end_of (d_log d) -> covered x l2.
+Proof. exact run_complete_plain. Qed.
+
+Theorem c01_run_key_shape : forall (cfg : config) (st0 : rstate) (ops : list (list oracle * rop)) (st : rstate) (tr : list dev),
+  init cfg = Ok st0 -> run_d st0 ops = Ok (st, tr) ->
+  forall (id k : N) (f : str) (i : N) (a : kev), In (id, (k, f, i), a) tr ->
+    extract_group f = None /\ al_get str_eqb f (dl_findex (r_datalog st)) = Some i.
+Proof. exact run_key_shape. Qed.
 
 Theorem c01_run_covered_no_resubscribe : forall (x : N) (l : list kev),
   no_sub l -> covered x l ->
